@@ -70,22 +70,32 @@ SAFE_FTP_COMMANDS = frozenset(
 )
 
 
-def _extract_output_file(tokens: list[str]) -> str | None:
-    """Extract the output file from -o/--output flag."""
+# Short options without an argument (may precede -o in one cluster, e.g. -fsSLo file)
+_SHORT_NOARG = frozenset("aBfgGhiIjJklLMnNOpqRsSvVZ#:012346")
+
+
+def _extract_output_files(tokens: list[str]) -> list[str]:
+    """Extract the files named by -o/--output (every occurrence)."""
+    outputs = []
     for i, t in enumerate(tokens):
-        # -o file
-        if t == "-o" and i + 1 < len(tokens):
-            return tokens[i + 1]
-        # -ofile (no space)
-        if t.startswith("-o") and len(t) > 2 and not t.startswith("-o="):
-            return t[2:]
         # --output file
         if t == "--output" and i + 1 < len(tokens):
-            return tokens[i + 1]
+            outputs.append(tokens[i + 1])
         # --output=file
-        if t.startswith("--output="):
-            return t[9:]
-    return None
+        elif t.startswith("--output="):
+            outputs.append(t[9:])
+        elif t.startswith("-") and not t.startswith("--"):
+            # -o file, -ofile, and -o at the end of a cluster: -so file, -fsSLofile
+            for k, ch in enumerate(t[1:], start=1):
+                if ch == "o":
+                    if k + 1 < len(t):
+                        outputs.append(t[k + 1 :])
+                    elif i + 1 < len(tokens):
+                        outputs.append(tokens[i + 1])
+                    break
+                if ch not in _SHORT_NOARG:
+                    break  # an option with an argument: the rest is its value
+    return outputs
 
 
 def classify(ctx: HandlerContext) -> Classification:
@@ -131,12 +141,14 @@ def classify(ctx: HandlerContext) -> Classification:
                     return Classification("ask", description=f"{base} {t}")
 
     # Check for output file - return redirect_targets for config rule checking
-    output_file = _extract_output_file(tokens)
-    if output_file and output_file not in ("-", "/dev/null"):
+    output_files = [
+        f for f in _extract_output_files(tokens) if f not in ("-", "/dev/null")
+    ]
+    if output_files:
         return Classification(
             "allow",
             description=base,
-            redirect_targets=(output_file,),
+            redirect_targets=tuple(output_files),
         )
 
     return Classification("allow", description=base)
